@@ -1,5 +1,6 @@
 import TaskctlVerif.Proofs.Sched
 import TaskctlVerif.Model.Nested
+import TaskctlVerif.Model.Tree
 /-!
 # C01 — a stage never starts before all of its dependencies have finished
 
@@ -181,6 +182,113 @@ theorem C01_nested_window (co ci : Cfg) (S ni : Nat) (σ : NSt) (ok : Bool)
     (h : innerOver ni σ.i = false) : nstep co ci S ni σ (.outer (.ret S ok)) = σ := by
   simp [nstep, h]
 
+/-! ## Pipelines nested to any depth (`Model/Tree.lean`) -/
+
+/-- one step of the tree either changes nothing or is one scheduler step of exactly one pipeline,
+whose enclosing stage (if any) is inside `Run` -/
+theorem tstep_cases (T : TCfg) (σ : TSt) (x : TAct) :
+    tstep T σ x = σ ∨
+      (enclosingInRun σ x.p = true ∧ ∃ a, tstep T σ x = tset σ x.p (step (T.cfg x.p) (σ x.p) a)) := by
+  unfold tstep
+  split
+  · rename_i hen
+    split
+    · split
+      · split
+        · exact .inr ⟨hen, _, rfl⟩
+        · exact .inl rfl
+      · exact .inr ⟨hen, _, rfl⟩
+    · exact .inr ⟨hen, _, rfl⟩
+  · exact .inl rfl
+
+/-- tree invariant: every pipeline satisfies the scheduler invariant, and the run of an included
+pipeline has not begun unless the stage that includes it has been started -/
+structure TInv (T : TCfg) (σ : TSt) : Prop where
+  each : ∀ p, Inv (T.cfg p) (σ p)
+  gate : ∀ s q, σ (s :: q) = init ∨ (σ q).g s ≠ .none
+
+theorem tinv_init (T : TCfg) : TInv T tinit :=
+  ⟨fun p => inv_init (T.cfg p), fun _ _ => .inl rfl⟩
+
+theorem cons_ne_self (s : Nat) (q : Path) : s :: q ≠ q := by
+  intro h
+  have := congrArg List.length h
+  simp at this
+
+theorem tinv_step (T : TCfg) (σ : TSt) (x : TAct) (h : TInv T σ) : TInv T (tstep T σ x) := by
+  rcases tstep_cases T σ x with he | ⟨hen, a, he⟩ <;> rw [he]
+  · exact h
+  · refine ⟨fun p => ?_, fun s q => ?_⟩
+    · unfold tset
+      split
+      · rename_i hp; subst hp; exact inv_step _ _ a (h.each _)
+      · exact h.each p
+    · unfold tset
+      by_cases h1 : s :: q = x.p
+      · -- the included pipeline moved: the including stage is inside Run, and is not the same pipeline
+        right
+        have hq : q ≠ x.p := fun hq => cons_ne_self s q (h1.trans hq.symm)
+        simp only [if_neg hq]
+        have : enclosingInRun σ (s :: q) = true := by rw [h1]; exact hen
+        simp only [enclosingInRun, beq_iff_eq] at this
+        rw [this]; simp
+      · simp only [if_neg h1]
+        by_cases h2 : q = x.p
+        · simp only [if_pos h2]
+          rcases h.gate s q with hg | hg
+          · exact .inl hg
+          · right; rw [← h2]; exact started_stable _ _ a s hg
+        · simp only [if_neg h2]; exact h.gate s q
+
+theorem tinv_run (T : TCfg) (xs : List TAct) : TInv T (trun T tinit xs) := by
+  suffices ∀ σ, TInv T σ → TInv T (trun T σ xs) from this _ (tinv_init T)
+  induction xs with
+  | nil => intro σ h; exact h
+  | cons x xs ih => intro σ h; exact ih _ (tinv_step T σ x h)
+
+/-- a pipeline whose run has begun lies below started stages all the way up -/
+theorem enclosing_started (T : TCfg) (σ : TSt) (h : TInv T σ) :
+    ∀ (pre : Path) (s : Nat) (q : Path), σ (pre ++ s :: q) ≠ init → (σ q).g s ≠ .none := by
+  intro pre
+  induction pre with
+  | nil =>
+    intro s q hne
+    rcases h.gate s q with hg | hg
+    · exact absurd hg hne
+    · exact hg
+  | cons t pre ih =>
+    intro s q hne
+    rcases h.gate t (pre ++ s :: q) with hg | hg
+    · exact absurd hg hne
+    · exact ih s q (fun hi => hg (by rw [hi]; rfl))
+
+/-- **C01 at every depth of nesting**: in every reachable state of a tree of pipelines, under every
+interleaving of all the schedulers and all their goroutines, a stage `x` of the pipeline at `p`
+whose task has been started has (1) each of its own dependencies satisfied, and (2) for *every*
+enclosing level - every way of writing `p` as `pre ++ s :: q`, i.e. `p` lies inside the pipeline
+run by stage `s` of `q` - each dependency of the enclosing stage `s` satisfied in the run of `q`. -/
+theorem C01_tree (T : TCfg) (xs : List TAct) (p : Path) (x : Nat)
+    (hx : (trun T tinit xs p).g x ≠ .none) :
+    (∀ d ∈ (T.cfg p).deps x, Sat (T.cfg p) (trun T tinit xs p) d) ∧
+    (∀ pre s q, p = pre ++ s :: q →
+      ∀ d ∈ (T.cfg q).deps s, Sat (T.cfg q) (trun T tinit xs q) d) := by
+  have h := tinv_run T xs
+  refine ⟨fun d hd => (h.each p).started x hx d hd, fun pre s q hp d hd => ?_⟩
+  have hne : trun T tinit xs (pre ++ s :: q) ≠ init := by
+    rw [← hp]; intro hi; rw [hi] at hx; exact hx rfl
+  exact (h.each q).started s (enclosing_started T _ h pre s q hne) d hd
+
+/-- the including stage stays inside `Run` for as long as the included run is not over -/
+theorem C01_tree_window (T : TCfg) (σ : TSt) (p : Path) (s : Nat) (ok : Bool)
+    (hp : T.pipe p s = true) (h : innerOver (T.n (s :: p)) (σ (s :: p)) = false) :
+    tstep T σ ⟨p, .ret s ok⟩ = σ := by
+  simp [tstep, hp, h]
+
+/-- nothing of an included pipeline happens while the including stage is not inside `Run` -/
+theorem C01_tree_outside (T : TCfg) (σ : TSt) (s : Nat) (q : Path) (a : Act)
+    (h : (σ q).g s ≠ .inRun) : tstep T σ ⟨s :: q, a⟩ = σ := by
+  simp [tstep, enclosingInRun, h]
+
 /-! ## Non-vacuity: a concrete run in which stage 1 (depending on 0) does start -/
 def exCfg : Cfg := { deps := fun s => if s = 1 then [0] else [], allow := fun _ => false, cond := fun _ => .none }
 def exRun : List Act := [.visit 0, .decide, .ret 0 true, .visit 1, .read, .decide]
@@ -197,5 +305,17 @@ def exNested : List NAct :=
 example : (nrun exCfg exCfg 1 2 ninit exNested).i.g 0 ≠ .none ∧
     (nrun exCfg exCfg 1 2 ninit (exNested.take 2)).i.g 0 = .none ∧
     (nrun exCfg exCfg 1 2 ninit exNested).o.g 1 = .inRun := by decide
+
+-- three levels: stage 1 (depending on 0) of every pipeline runs a pipeline of the same shape; the
+-- innermost stage 0 does start, and the same actions do nothing before the enclosing stages run
+def exTree : TCfg := { cfg := fun _ => exCfg, pipe := fun p s => s == 1 && p.length < 2, n := fun _ => 2 }
+def exTreeRun : List TAct :=
+  (exRun.map (TAct.mk [])) ++ (exRun.map (TAct.mk [1])) ++ [⟨[1, 1], .visit 0⟩, ⟨[1, 1], .decide⟩]
+example : (trun exTree tinit exTreeRun [1, 1]).g 0 = .inRun ∧
+    (trun exTree tinit exTreeRun [1]).g 1 = .inRun ∧ (trun exTree tinit exTreeRun []).g 1 = .inRun ∧
+    (trun exTree tinit (exTreeRun.drop 6) [1, 1]).g 0 = .none ∧
+    (trun exTree tinit (exTreeRun.drop 6) [1]).g 1 = .none := by decide
+-- the nested stage cannot return before the included run is over, and returns its result afterwards
+example : (trun exTree tinit (exTreeRun ++ [⟨[1], .ret 1 true⟩]) [1]).g 1 = .inRun := by decide
 
 end Sched
